@@ -150,7 +150,7 @@ func (C09) growth(tp *tape.Tape) core.Result {
 	// what the loop body ends in: the statement form whose value (or absence of one) the loop
 	// has to pop, keep or hand on, per iteration
 	tails := []string{"", "i * 2 + 1", "toa(i)", "deep(1)", "[i, i + 1]", "if i % 2 == 0 {\ni\n} else {\ni + 1\n}", "if i % 2 == 0 {\ni * 3\n}",
-		"if true {\nq = i\nq + 1\n}", "\"s\" + toa(i)", "\"abcd\"[i % 3]", "(x) -> x + i", "[1, 2, 3][i % 3:3]", "-i", "i < 3", "#toa(i)", "deep(i % 3) + deep(1)"}
+		"if true {\nq = i\nq + 1\n}", "\"s\" + toa(i)", "\"abcd\"[i % 3]", "if i > 1000 {\nreturn 5\n} else {\ni\n}", "if i < 1000 {\ni * 2\n} else {\nreturn 6\n}", "(x) -> x + i", "[1, 2, 3][i % 3:3]", "-i", "i < 3", "#toa(i)", "deep(i % 3) + deep(1)"}
 	tail := tails[tp.Draw(len(tails))]
 	withTail := func(b []string, counter bool) []string {
 		out := append([]string{}, b...)
